@@ -436,10 +436,9 @@ def filing(repo, res):
     from engine.flow import enum_paths as _ep2, path_facts as _pf2
     import re as _re2
 
-    ALLOWED = [
-        r"^entry\[4\]$", r" in default_unit_name_alternatives$", r"^len\(\w+\) (<|>|>=|<=) \d$", r"^len\(\w+\) > 3 and ", r"\.title\(\) (!=|==) \w+$", r"\.title\(\) in names\[", r"^\w+ in seen$", r"\.islower\(\)$",
-        r"^all\(\(?len\(\w+\) > 3 for \w+ in \w+\.split\('_'\)\)?\)$", r"^\w+ in \(?\[?'u', 'μ', 'µ'\]?\)?$", r"^\w+\[0\] in \(?\[?'u', 'μ'\]?\)?$", r"^key in \w+$", r"^\w+ in \('u', 'μ', 'µ'\)$",
-    ]
+    # vocabulary of the scheme's own tests (how they are combined or spelled is free): sizes, title-casing, lower-case
+    # test, splitting compound names, membership in the tables being built
+    VOCAB = {"len", "all", "any", "title", "islower", "split"}
     odd = set()
     for p_ in _ep2(fn.body):
         files_here = any(ev[0] == "stmt" and any(isinstance(c, ast.Call) and isinstance(c.func, ast.Name) and c.func.id in nested for c in ast.walk(ev[1])) for ev in p_)
@@ -447,22 +446,12 @@ def filing(repo, res):
         if not (files_here or skips):
             continue
         for t_, tr_, n_ in _pf2(p_):
-            atoms = []
-
-            def split(e):
-                if isinstance(e, ast.BoolOp):
-                    for v_ in e.values:
-                        split(v_)
-                elif isinstance(e, ast.UnaryOp) and isinstance(e.op, ast.Not):
-                    split(e.operand)
-                else:
-                    atoms.append(norm(e))
-
-            split(n_)
-            for at in atoms:
-                if not any(_re2.search(rx, at) for rx in ALLOWED):
-                    odd.add(at)
-    res.check(not odd, "filing-conditions", fn.where(), "a spelling is filed (or skipped) under a condition that is not part of the documented naming scheme: documented names are silently dropped from the tables, the namespaces and the parser's alias map", "only: prefixable flag, listed in the alias table, short-alias / long-lower-case tests, not yet listed", sorted(odd)[:4], rid=r6)
+            for c_ in ast.walk(n_):
+                if isinstance(c_, ast.Call):
+                    nm = c_.func.id if isinstance(c_.func, ast.Name) else c_.func.attr if isinstance(c_.func, ast.Attribute) else "?"
+                    if nm not in VOCAB:
+                        odd.add(f"{nm}() in `{norm(n_)[:60]}`")
+    res.check(not odd, "filing-conditions", fn.where(), "a spelling is filed (or skipped) under a condition that is not part of the documented naming scheme: documented names are silently dropped from the tables, the namespaces and the parser's alias map", "tests built from len / title / islower / split and membership in the tables only", sorted(odd)[:4], rid=r6)
     for site, args in sites:
         lst, canon = args[i_list], args[i_canon]
         ok = isinstance(lst, ast.Subscript) and norm(lst.value) == names_v
@@ -496,4 +485,5 @@ MUTANTS = [
     Mutant("alias-map-written-directly", LUT, "generate_name_alternatives", "                append_name(names[key], key, alt)\n", "                append_name(names[key], key, alt)\n                inv_names[alt.upper()] = key\n", ("C14-R6",)),
     Mutant("degree-sign-to-long-alias", PAR, "parse_unyt_expr", '    unit_expr = unit_expr.replace("°", "deg")\n', '    unit_expr = unit_expr.replace("°C", "degree_celsius")\n    unit_expr = unit_expr.replace("°", "deg")\n', ("C14-R7",)),
     Mutant("modify-selective-cache-delete", REG, "UnitRegistry.modify", "        self._unit_object_cache.clear()\n", "        for key in [k for k in self._unit_object_cache if symbol in k]:\n            del self._unit_object_cache[key]\n", ("C14-R8",)),
+    Mutant("derived-row-stays-prefixable", REG, "_lookup_unit_symbol", "            latex_repr,\n            False,\n", "            latex_repr,\n            True,\n", ("C14-R9",)),
 ]
